@@ -290,4 +290,134 @@ theorem splitBlocks_J (st : St) (h : J st) : J st.splitBlocks := by
   exact J.of_core (st := (List.range st.moveBlocks.order.size).foldl St.splitBlockStep st.moveBlocks)
     rfl rfl rfl rfl (fun hh => hh) h2
 
+/-! ### mostViolated -/
+
+theorem mem_swapRemove_sub (l : Array Nat) (k x : Nat) (h : x ∈ (l.set! k l[l.size - 1]!).pop) : x ∈ l := by
+  obtain ⟨i, hi, rfl⟩ := Array.mem_iff_getElem.1 h
+  have hi' : i < l.size := by simp at hi; omega
+  rw [Array.getElem_pop]
+  have e : (l.set! k l[l.size - 1]!)[i]'(by simp; exact hi') = (l.set! k l[l.size - 1]!)[i]! :=
+    (getElem!_pos _ i (by simp; exact hi')).symm
+  rw [e, get!_set!]
+  split
+  · have hlast : l.size - 1 < l.size := by omega
+    rw [getElem!_pos l _ hlast]
+    exact Array.getElem_mem _
+  · rw [getElem!_pos l i hi']
+    exact Array.getElem_mem _
+
+theorem mem_swapRemove_of_ne (l : Array Nat) (k x : Nat) (hk : k < l.size) (hx : x ∈ l)
+    (hne : x ≠ l[k]!) : x ∈ (l.set! k l[l.size - 1]!).pop := by
+  obtain ⟨i, hi, rfl⟩ := Array.mem_iff_getElem.1 hx
+  have hik : i ≠ k := by
+    rintro rfl
+    exact hne (getElem!_pos l i hi).symm
+  rw [Array.mem_iff_getElem]
+  by_cases hlast : i = l.size - 1
+  · -- the last element has been moved to position k
+    have hk' : k < (l.set! k l[l.size - 1]!).pop.size := by simp; omega
+    refine ⟨k, hk', ?_⟩
+    rw [Array.getElem_pop]
+    have e : (l.set! k l[l.size - 1]!)[k]'(by simp; exact hk) = (l.set! k l[l.size - 1]!)[k]! :=
+      (getElem!_pos _ k (by simp; exact hk)).symm
+    rw [e, get!_set!]
+    simp only [hk, and_self, if_true]
+    subst hlast
+    exact getElem!_pos l _ hi
+  · have hi' : i < (l.set! k l[l.size - 1]!).pop.size := by simp; omega
+    refine ⟨i, hi', ?_⟩
+    rw [Array.getElem_pop]
+    have e : (l.set! k l[l.size - 1]!)[i]'(by simp; exact hi) = (l.set! k l[l.size - 1]!)[i]! :=
+      (getElem!_pos _ i (by simp; exact hi)).symm
+    rw [e, get!_set!]
+    have : ¬ (k = i ∧ i < l.size) := fun hh => hik hh.1.symm
+    rw [if_neg this]
+    exact getElem!_pos l i hi
+
+theorem slack_note (st : St) (m : Rat) (ci : Nat) : (st.note m).slack ci = st.slack ci := rfl
+
+/-- what `mostViolated` returns -/
+structure MVSpec (st : St) (r : St × Option Nat) : Prop where
+  vars : r.1.vars = st.vars
+  cons : r.1.cons = st.cons
+  blocks : r.1.blocks = st.blocks
+  fuel : r.1.fuelOut = st.fuelOut
+  sub : ∀ j ∈ r.1.inactive, j ∈ st.inactive
+  none_case : r.2 = none → r.1.inactive = st.inactive ∧ ∀ j ∈ st.inactive, (st.cons[j]!).eq = false
+  some_case : ∀ v, r.2 = some v → v ∈ st.inactive ∧
+    (∀ j ∈ st.inactive, j ≠ v → j ∈ r.1.inactive) ∧
+    (r.1.goCond v = false → r.1.inactive = st.inactive ∧ ∀ j ∈ st.inactive, (st.cons[j]!).eq = false)
+
+theorem mostViolated_spec (st : St) : MVSpec st st.mostViolated := by
+  unfold St.mostViolated
+  simp only
+  split
+  · -- empty list
+    rename_i hsz
+    have hempty : ∀ j, j ∉ st.inactive := by
+      intro j hj
+      obtain ⟨i, hi, _⟩ := Array.mem_iff_getElem.1 hj
+      have : st.inactive.size = 0 := by simpa using hsz
+      omega
+    exact ⟨rfl, rfl, rfl, rfl, fun j hj => hj, fun _ => ⟨rfl, fun j hj => absurd hj (hempty j)⟩,
+      fun v hv => by simp at hv⟩
+  · split
+    · -- an equality is in the list
+      rename_i k hk
+      obtain ⟨hklt, hp, _⟩ := Array.findIdx?_eq_some_iff_getElem.1 hk
+      have hkk : st.inactive[k]! = st.inactive[k] := getElem!_pos _ k hklt
+      refine ⟨rfl, rfl, rfl, rfl, fun j hj => mem_swapRemove_sub _ _ _ hj, fun hh => by simp at hh, ?_⟩
+      intro v hv
+      simp only [Option.some.injEq] at hv
+      subst hv
+      refine ⟨by rw [hkk]; exact Array.getElem_mem _, fun j hj hne => mem_swapRemove_of_ne _ _ _ hklt hj hne, ?_⟩
+      intro hgo
+      exfalso
+      have heq : (st.cons[st.inactive[k]!]!).eq = true := by rw [hkk]; exact hp
+      simp only [St.goCond, Bool.or_eq_false_iff] at hgo
+      have := hgo.1
+      rw [heq] at this
+      exact absurd this (by simp)
+    · rename_i hnoeq
+      have hall : ∀ j ∈ st.inactive, (st.cons[j]!).eq = false :=
+        fun j hj => Array.findIdx?_eq_none_iff.1 hnoeq j hj
+      split
+      · exact ⟨rfl, rfl, rfl, rfl, fun j hj => hj, fun _ => ⟨rfl, hall⟩, fun v hv => by simp at hv⟩
+      · rename_i ci s gap hmin
+        have hmem := argMinFirst_mem _ _ _ _ hmin
+        simp only [Array.mem_filterMap, Option.map_eq_some_iff, Prod.mk.injEq] at hmem
+        obtain ⟨cj, hcj, s', hs', rfl, rfl⟩ := hmem
+        split
+        · rename_i hcond
+          split
+          · rename_i k hk
+            obtain ⟨hklt, hp, _⟩ := Array.findIdx?_eq_some_iff_getElem.1 hk
+            have hkk : st.inactive[k]! = cj := by
+              rw [getElem!_pos _ k hklt]; simpa using hp
+            refine ⟨rfl, rfl, rfl, rfl, fun j hj => mem_swapRemove_sub _ _ _ hj,
+              fun hh => by simp at hh, ?_⟩
+            intro v hv
+            simp only [Option.some.injEq] at hv
+            subst hv
+            refine ⟨hcj, fun j hj hne => mem_swapRemove_of_ne _ _ _ hklt hj (by rw [hkk]; exact hne), ?_⟩
+            intro hgo
+            exfalso
+            simp only [St.goCond, Bool.or_eq_false_iff] at hgo
+            have h2 := hgo.2
+            have hsl : St.slack { ((st.note (s' - ZERO_UPPERBOUND)).note gap) with
+                inactive := (st.inactive.set! k st.inactive[st.inactive.size - 1]!).pop } cj = some s' := hs'
+            rw [hsl] at h2
+            simp only at h2
+            exact absurd (hcond.symm.trans h2) (by simp)
+          · refine ⟨rfl, rfl, rfl, rfl, fun j hj => hj, fun hh => by simp at hh, ?_⟩
+            intro v hv
+            simp only [Option.some.injEq] at hv
+            subst hv
+            exact ⟨hcj, fun j hj _ => hj, fun _ => ⟨rfl, hall⟩⟩
+        · refine ⟨rfl, rfl, rfl, rfl, fun j hj => hj, fun hh => by simp at hh, ?_⟩
+          intro v hv
+          simp only [Option.some.injEq] at hv
+          subst hv
+          exact ⟨hcj, fun j hj _ => hj, fun _ => ⟨rfl, hall⟩⟩
+
 end AdaptaVerif.Lemmas.VpscLoop
